@@ -63,6 +63,16 @@ pub(crate) fn verify_membership<TC: Configuration>(
         curr_label = sibling_proof.label;
     }
 
+    // The path must end at the root: the label reached at the top is not part of any hash, so
+    // without this check a proof with no siblings would verify for an arbitrary label (with the
+    // root's value as its hash).
+    if curr_label != NodeLabel::root() {
+        return Err(VerificationError::MembershipProof(format!(
+            "Membership proof for label {:?} does not end at the root",
+            proof.label
+        )));
+    }
+
     if TC::compute_root_hash_from_val(&curr_val) == root_hash {
         Ok(())
     } else {
